@@ -117,6 +117,34 @@ CLAIMED = {
         technique="postconditions over the event-loop model by symbolic execution of the real AST + SMT; bounded queue shape",
         note=TRUST + LOOP,
     ),
+    "C10": dict(
+        category="other",
+        text="The offer task is verified as a trace of sleeps and sends for every timing configuration (repetition count 0..4 enumerated, as the property bounds it): initial delay inside the window, repetitions at doubling delays, one offer per cyclic period (loop contract), each to the multicast group with the configured TTL and the service's entry; cancelled at any await it sends nothing more except, for a cyclic instance after the first offer, exactly one StopOffer. start/stop/announce/stop-announce/announcer stop (idempotent) and 'nothing follows a StopOffer' (_send_offer after stop, readiness cleared by stop) are postconditions. One helper is the open known finding D6, hence level other.",
+        design_ref="DESIGN.md 4/C10, 5/D5-D8",
+        technique="coroutine as sequential procedure (sleep = clock advance or cancellation point) + loop contract, symbolic execution of the real AST over the event-loop model + SMT",
+        note=TRUST + LOOP + "; random.uniform axiom; defects D5/D7/D8 repaired by fix commits 6818820, 48521a4, b7551db; D6 recorded",
+    ),
+    "C13": dict(
+        category="other",
+        text="The find task is verified as a trace for every timing configuration (0..4 repetitions enumerated) while the set of known offers changes arbitrarily during every wait: each round sends, to the multicast group, FindService entries for exactly the watched services with no matching live offer at that instant (ids and wildcards copied, configured TTL), delays double, at most 1 + repetitions rounds, and an empty round ends the task for good; _service_found and the truthfulness of the known-offer store are under contract. Two watched filters (bounded shape), hence level other.",
+        design_ref="DESIGN.md 4/C13",
+        technique="coroutine as sequential procedure with interference at every await, symbolic execution of the real AST + SMT",
+        note=TRUST + LOOP + "; random.uniform axiom",
+    ),
+    "C14": dict(
+        category="other",
+        text="Against model servers that apply the sent Subscribe/StopSubscribe entries in order, every subscriber operation (subscribe, stop-subscribe, both in one loop iteration, start with the refresh task's arbitrary iteration, stop, connection loss) is proved to keep 'each server holds exactly the eventgroups requested from it while the subscriber runs, none afterwards'; every Subscribe carries the ids, the configured TTL and one endpoint option with the local address, port and protocol, goes only to its server, and the refresh round recurs exactly one interval later. Requested set and local endpoints bounded/representative, hence level other.",
+        design_ref="DESIGN.md 4/C14",
+        technique="monitor invariant preserved by each operation + coroutine/loop contract, symbolic execution of the real AST over the event-loop model + SMT",
+        note=TRUST + LOOP + "; getnameinfo evaluated on four concrete local endpoints",
+    ),
+    "C17": dict(
+        category="other",
+        text="_notify_single is proved to send one datagram to the subscriber's address that is byte-for-byte the concatenation of the spec-layout notifications (service id, 0x8000|event id, major version as interface version, NOTIFICATION, current value) with per-destination session ids continuing 1..0xFFFF; subscribe sends exactly the initial notifications to the new endpoint, explicit and cyclic rounds reach each current subscriber exactly once and nobody else, the has-clients flag is set exactly while somebody is subscribed, and subscriptions naming other than one endpoint or an unknown eventgroup are refused. Two events / two endpoints (bounded shape), hence level other.",
+        design_ref="DESIGN.md 4/C17",
+        technique="coroutines as sequential procedures + loop contract, byte-level postconditions by symbolic execution of the real AST + SMT",
+        note=TRUST + LOOP + "; getaddrinfo for numeric hosts modelled in contracts/looplib.py",
+    ),
 }
 
 NA_REASONS = {
